@@ -34,6 +34,21 @@ func simSetSiteDelay(K, k uint32, lifo bool)
 //go:linkname simDeferrals runtime.simDeferrals
 func simDeferrals() uint64
 
+//go:linkname simChargedUntil runtime.simChargedUntil
+func simChargedUntil() int64
+
+// ChargedUntil returns the instant (bubble clock) at which the last virtual-time
+// sleep that the runtime's spin guard charged to the calling goroutine ended;
+// the zero time if it was never charged. A deadline oracle must not count that
+// sleep against the code under test: the goroutine could not notice anything
+// while it was held.
+func ChargedUntil() time.Time {
+	if t := simChargedUntil(); t > 0 {
+		return time.Unix(0, t)
+	}
+	return time.Time{}
+}
+
 //go:linkname simSpinSleepers runtime.simSpinSleepers
 func simSpinSleepers() (n int32, end int64)
 
